@@ -4,7 +4,6 @@ package protocol
 
 import (
 	"context"
-	"crypto/rand"
 	"crypto/x509"
 	"crypto/x509/pkix"
 	"encoding/base64"
@@ -17,153 +16,185 @@ import (
 	nodetls "github.com/hashicorp/nodeenrollment/tls"
 	"github.com/hashicorp/nodeenrollment/types"
 	"github.com/hashicorp/nodeenrollment/zzverif/vf"
+	"github.com/hashicorp/nodeenrollment/zzverif/vfs"
 	"google.golang.org/protobuf/proto"
 	"google.golang.org/protobuf/types/known/timestamppb"
 )
 
-func init() { VfHarnesses["VerifC02Auth"] = VerifC02Auth }
-
-// ---- marshal-based storage, like the real back ends ----
-type vfEntry struct {
-	kind int
-	id   string
-	data []byte
-}
-type vfStorage struct{ entries []vfEntry }
-
-func vfKind(m proto.Message) int {
-	switch m.(type) {
-	case *types.NodeInformation:
-		return 1
-	case *types.RootCertificates:
-		return 2
-	case *types.NodeCredentials:
-		return 3
-	case *types.ServerLedActivationToken:
-		return 4
-	}
-	return 0
-}
-func (s *vfStorage) Store(ctx context.Context, m nodeenrollment.MessageWithId) error {
-	b, err := proto.Marshal(m)
-	if err != nil {
-		return err
-	}
-	k := vfKind(m)
-	for i := range s.entries {
-		if s.entries[i].kind == k && s.entries[i].id == m.GetId() {
-			s.entries[i].data = b
-			return nil
-		}
-	}
-	s.entries = append(s.entries, vfEntry{k, m.GetId(), b})
-	return nil
-}
-func (s *vfStorage) Load(ctx context.Context, m nodeenrollment.MessageWithId) error {
-	k := vfKind(m)
-	for _, e := range s.entries {
-		if e.kind == k && e.id == m.GetId() {
-			return proto.Unmarshal(e.data, m)
-		}
-	}
-	return nodeenrollment.ErrNotFound
-}
-func (s *vfStorage) Remove(ctx context.Context, m nodeenrollment.MessageWithId) error { return nil }
-func (s *vfStorage) List(ctx context.Context, m proto.Message) ([]string, error)     { return nil, nil }
-
-// ---- the peer as seen by the handshake contract model ----
-type vfPeer struct {
-	net.Conn
-	Protos       []string
-	Chain        [][]byte
-	HoldsLeafKey bool
-}
-type vfOneShot struct {
-	conn net.Conn
-	done bool
+func init() {
+	VfHarnesses["VerifC02Auth"] = VerifC02Auth
+	VfHarnesses["VerifC02Fetch"] = VerifC02Fetch
 }
 
-func (l *vfOneShot) Accept() (net.Conn, error) {
-	if l.done {
-		return nil, net.ErrClosed
-	}
-	l.done = true
-	return l.conn, nil
-}
-func (l *vfOneShot) Close() error   { return nil }
-func (l *vfOneShot) Addr() net.Addr { return nil }
-
-func vfMkCert(tmpl, parent *x509.Certificate, subjectKey, signerKey int) []byte {
-	priv, _ := x509.ParsePKCS8PrivateKey(vf.Pkcs8(signerKey))
-	pub, _ := x509.ParsePKIXPublicKey(vf.Pkix(subjectKey))
-	der, err := x509.CreateCertificate(rand.Reader, tmpl, parent, pub, priv)
-	if err != nil {
-		panic(err)
-	}
-	return der
+// vfNodeLeaf is the client certificate authorizeNodeCommon issues: for universe key `key`, under the CA template.
+func vfNodeLeaf(ca *x509.Certificate, key, signer int, eku x509.ExtKeyUsage) []byte {
+	id, _ := nodeenrollment.KeyIdFromPkix(vf.Pkix(key))
+	return vfs.MkCert(&x509.Certificate{SubjectKeyId: vf.Pkix(key), Subject: pkix.Name{CommonName: id}, DNSNames: []string{id},
+		ExtKeyUsage: []x509.ExtKeyUsage{eku}, SerialNumber: big.NewInt(2), NotBefore: ca.NotBefore, NotAfter: ca.NotAfter}, ca, key, signer)
 }
 
-// C02 (core): a peer that presents the node certificate this server issued is accepted as
-// authenticated only if it holds the key, the node record is still in storage, and the
-// handshake nonce is signed by that record's key -- whatever the request fields say.
+func vfOneConn(c net.Conn) *vfs.Script { return &vfs.Script{Conns: []net.Conn{c}, Errs: []error{nil}} }
+
+// C02 (authentication): a peer that comes out of Accept with the node-authentication protocol negotiated
+//   - holds the private key of the certificate it presented,
+//   - presented a certificate issued by a root this server stores and that is valid now,
+//   - for exactly the certificate key named in its request,
+//   - and signed the handshake nonce with the key of a node record PRESENT in storage: the record of that
+//     certificate key, or - when the storage supports lookup by node ID and the request names one - a record
+//     under that node ID,
+//
+// whatever the other request fields (skip_verification, common_name, node_id) say.
 func VerifC02Auth() {
 	ctx := context.Background()
-	st := &vfStorage{}
+	inner := &vfs.Storage{}
 	t0 := vf.Now()
-	rootTmpl := func(k int) *x509.Certificate {
-		return &x509.Certificate{SubjectKeyId: vf.Pkix(k), Subject: pkix.Name{CommonName: "root"}, SerialNumber: big.NewInt(1),
-			NotBefore: t0.Add(-time.Hour), NotAfter: t0.Add(time.Hour), IsCA: true, BasicConstraintsValid: true}
-	}
-	mkRoot := func(k int, id string) (*types.RootCertificate, []byte, *x509.Certificate) {
-		tmpl := rootTmpl(k)
-		der := vfMkCert(tmpl, tmpl, k, k)
-		return &types.RootCertificate{Id: id, PublicKeyPkix: vf.Pkix(k), PrivateKeyPkcs8: vf.Pkcs8(k), PrivateKeyType: types.KEYTYPE_ED25519,
-			CertificateDer: der, NotBefore: timestamppb.New(tmpl.NotBefore), NotAfter: timestamppb.New(tmpl.NotAfter)}, der, tmpl
-	}
-	cur, curDer, curTmpl := mkRoot(0, "current")
-	next, _, _ := mkRoot(1, "next")
-	if err := (&types.RootCertificates{Id: nodeenrollment.RootsMessageId, Current: cur, Next: next}).Store(ctx, st); err != nil {
+	// the server's roots: current = universe key 0, next = universe key 1; current may have expired
+	curExpired := vf.Bool("current-root-expired")
+	curNA := t0.Add(time.Duration(vf.IfInt(curExpired, int(-time.Minute), int(time.Hour))))
+	cur, curTmpl := vfs.MkRoot("current", 0, t0.Add(-2*time.Hour), curNA)
+	next, _ := vfs.MkRoot("next", 1, t0.Add(-time.Hour), t0.Add(2*time.Hour))
+	if err := (&types.RootCertificates{Id: nodeenrollment.RootsMessageId, Current: cur, Next: next}).Store(ctx, inner); err != nil {
 		panic(err)
 	}
+	// two enrolled nodes: A = key 2 under node ID "n1", B = key 3 under node ID "n2"; either may have been removed
+	presentA, presentB := vf.Bool("record-A-present"), vf.Bool("record-B-present")
+	for _, k := range []int{2, 3} {
+		id, _ := nodeenrollment.KeyIdFromPkix(vf.Pkix(k))
+		nid, gone := "n1", !presentA
+		if k == 3 {
+			nid, gone = "n2", !presentB
+		}
+		if err := (&types.NodeInformation{Id: id, CertificatePublicKeyPkix: vf.Pkix(k), NodeId: nid}).Store(ctx, inner); err != nil {
+			panic(err)
+		}
+		inner.SetGone(vfs.KindNode, id, gone)
+	}
+	loader := vf.Bool("storage-supports-node-id-lookup")
+	var st nodeenrollment.Storage = inner
+	if loader {
+		st = &vfs.NodeIdStorage{Storage: inner}
+	}
 
-	// the node (universe key 2) and the certificate authorizeNodeCommon issued to it under the current root
-	nodePkix := vf.Pkix(2)
-	nodeKeyId, _ := nodeenrollment.KeyIdFromPkix(nodePkix)
-	leafDer := vfMkCert(&x509.Certificate{SubjectKeyId: nodePkix, Subject: pkix.Name{CommonName: nodeKeyId}, DNSNames: []string{nodeKeyId},
-		ExtKeyUsage: []x509.ExtKeyUsage{x509.ExtKeyUsageClientAuth}, SerialNumber: big.NewInt(2),
-		NotBefore: curTmpl.NotBefore, NotAfter: curTmpl.NotAfter}, curTmpl, 2, 0)
-	recordPresent := vf.Bool("record-present")
-	if recordPresent {
-		if err := (&types.NodeInformation{Id: nodeKeyId, CertificatePublicKeyPkix: nodePkix}).Store(ctx, st); err != nil {
+	// the peer's certificate: for key leafKey, issued by this server's current root / self-issued under the
+	// root's name / issued by a foreign CA; it holds the matching private key or not
+	leafKey := vf.Int("leaf-key", 2, 3)
+	issuer := vf.Int("leaf-issuer", 0, 2)
+	signer := vf.IfInt(issuer == 0, 0, vf.IfInt(issuer == 1, leafKey, 5))
+	chain := [][]byte{vfNodeLeaf(curTmpl, leafKey, signer, x509.ExtKeyUsageClientAuth)} // the server verifies the leaf against its own pool only
+	holds := vf.Bool("holds-leaf-key")
+
+	// the ALPN-carried request: every field is the peer's choice
+	reqKey := vf.Int("request-key", 2, 3)
+	nonce := vf.Bytes("nonce", 32)
+	vf.Assume(len(nonce) == 32)
+	sigKey := vf.Int("nonce-signature-key", -1, 4) // -1: bytes that are no signature at all
+	nsig := vf.SigBy(sigKey, nonce)
+	hintNo := vf.Int("node-id-hint", 0, 3)
+	hint := vf.IfStr(hintNo == 0, "", vf.IfStr(hintNo == 1, "n1", vf.IfStr(hintNo == 2, "n2", "no-such-node")))
+	req := &types.GenerateServerCertificatesRequest{CertificatePublicKeyPkix: vf.Pkix(reqKey), Nonce: nonce, NonceSignature: nsig,
+		SkipVerification: vf.Bool("skip-verification-on-the-wire"), NodeId: hint,
+		CommonName: vf.IfStr(vf.Bool("common-name-on-the-wire"), nodeenrollment.CommonDnsName, "")}
+	reqBytes, err := proto.Marshal(req)
+	if err != nil {
+		panic(err)
+	}
+	protos, err := nodetls.BreakIntoNextProtos(nodeenrollment.AuthenticateNodeNextProtoV1Prefix, base64.RawStdEncoding.EncodeToString(reqBytes))
+	if err != nil {
+		panic(err)
+	}
+	prefId, _ := nodeenrollment.KeyIdFromPkix(vf.Pkix(vf.Int("preferred-root", 0, 1)))
+	protos = append(protos, nodeenrollment.CertificatePreferenceV1Prefix+prefId)
+	peer := &vfs.Peer{Protos: protos, Chain: chain, HoldsLeafKey: holds}
+	peer.Conn = vf.AdversaryConn(peer.Protos, peer.Chain, leafKey, peer.HoldsLeafKey)
+
+	l, err := NewInterceptingListener(&InterceptingListenerConfiguration{Context: ctx, Storage: st, BaseListener: vfOneConn(peer)})
+	if err != nil {
+		panic(err)
+	}
+	conn, err := l.Accept()
+	vf.Assume(vf.TimeLE(vf.Now(), t0.Add(time.Second)))
+
+	// which stored record may vouch for this request
+	byNodeId := vf.And(loader, hintNo != 0)
+	scopeA := vf.Or(vf.And(vf.Not(byNodeId), reqKey == 2), vf.And(byNodeId, hintNo == 1))
+	scopeB := vf.Or(vf.And(vf.Not(byNodeId), reqKey == 3), vf.And(byNodeId, hintNo == 2))
+	vouched := vf.Or(vf.And(vf.And(presentA, scopeA), sigKey == 2), vf.And(vf.And(presentB, scopeB), sigKey == 3))
+	rootOK := vf.And(issuer == 0, vf.Not(curExpired))
+	legit := vf.And(vf.And(holds, rootOK), vf.And(leafKey == reqKey, vouched))
+	authenticated := false
+	if err == nil {
+		authenticated = strings.HasPrefix(conn.(*Conn).ConnectionState().NegotiatedProtocol, nodeenrollment.AuthenticateNodeNextProtoV1Prefix)
+	}
+	if authenticated {
+		vf.Reach("authenticated")
+		vf.Assert("peer-holds-the-certificate-key", holds)
+		vf.Assert("certificate-issued-by-a-currently-valid-root-of-this-server", rootOK)
+		vf.Assert("certificate-is-for-the-key-named-in-the-request", leafKey == reqKey)
+		vf.Assert("nonce-signed-by-a-present-record-in-scope", vouched)
+	} else {
+		vf.Reach("rejected")
+		vf.Assert("rejected-peer-gets-no-connection", err != nil)
+		vf.Assert("registered-key-holder-is-authenticated", vf.Not(legit))
+	}
+}
+
+// C02 (fetch): a credential-fetch handshake never yields a connection, wherever the fetch entries sit in the
+// peer's ALPN list and whether or not the request was authorized; it never creates a node record either.
+func VerifC02Fetch() {
+	ctx := context.Background()
+	st := &vfs.Storage{}
+	t0 := vf.Now()
+	cur, _ := vfs.StoreRoots(ctx, st, t0)
+	_ = cur
+	key := 2
+	nonce := vf.Bytes("registration-nonce", 32)
+	vf.Assume(len(nonce) == 32)
+	encPub := vf.X25519Pub(0)
+	authorized := vf.Bool("node-authorized")
+	if authorized {
+		id, _ := nodeenrollment.KeyIdFromPkix(vf.Pkix(key))
+		rec := &types.NodeInformation{Id: id, CertificatePublicKeyPkix: vf.Pkix(key), CertificatePublicKeyType: types.KEYTYPE_ED25519,
+			EncryptionPublicKeyBytes: encPub, EncryptionPublicKeyType: types.KEYTYPE_X25519, RegistrationNonce: nonce,
+			ServerEncryptionPrivateKeyBytes: vf.X25519Priv(9), ServerEncryptionPrivateKeyType: types.KEYTYPE_X25519}
+		if err := rec.Store(ctx, st); err != nil {
 			panic(err)
 		}
 	}
-
-	// the peer's ALPN-carried request: every field that travels on the wire is the peer's choice
-	nonce := vf.Bytes("nonce", 32)
-	vf.Assume(len(nonce) == 32)
-	nsig := vf.SigBy(vf.Int("noncesigkey", -1, 2), nonce)
-	req := &types.GenerateServerCertificatesRequest{CertificatePublicKeyPkix: nodePkix, Nonce: nonce, NonceSignature: nsig,
-		SkipVerification: vf.Bool("skip-verification-on-the-wire")}
-	reqBytes, _ := proto.Marshal(req)
-	protos, _ := nodetls.BreakIntoNextProtos(nodeenrollment.AuthenticateNodeNextProtoV1Prefix, base64.RawStdEncoding.EncodeToString(reqBytes))
-	curKeyId, _ := nodeenrollment.KeyIdFromPkix(vf.Pkix(0))
-	protos = append(protos, nodeenrollment.CertificatePreferenceV1Prefix+curKeyId)
-	peer := &vfPeer{Protos: protos, Chain: [][]byte{leafDer, curDer}, HoldsLeafKey: vf.Bool("holds-leaf-key")}
-	peer.Conn = vf.AdversaryConn(peer.Protos, peer.Chain, 2, peer.HoldsLeafKey)
-
-	l, err := NewInterceptingListener(&InterceptingListenerConfiguration{Context: ctx, Storage: st, BaseListener: &vfOneShot{conn: peer}})
-	vf.Assert("listener-built", err == nil)
-	conn, err := l.Accept()
-	if err == nil {
-		pc := conn.(*Conn)
-		if strings.HasPrefix(pc.ConnectionState().NegotiatedProtocol, nodeenrollment.AuthenticateNodeNextProtoV1Prefix) {
-			vf.Reach("authenticated")
-			vf.Assert("peer-holds-the-certificate-key", peer.HoldsLeafKey)
-			vf.Assert("node-record-present", recordPresent)
-			vf.Assert("nonce-signed-by-the-record-key", vf.SigOK(2, nonce, nsig))
-		}
-	} else {
-		vf.Reach("rejected")
+	info := &types.FetchNodeCredentialsInfo{CertificatePublicKeyPkix: vf.Pkix(key), CertificatePublicKeyType: types.KEYTYPE_ED25519,
+		Nonce: nonce, EncryptionPublicKeyBytes: encPub, EncryptionPublicKeyType: types.KEYTYPE_X25519,
+		NotBefore: timestamppb.New(t0.Add(-time.Hour)), NotAfter: timestamppb.New(t0.Add(time.Hour))}
+	bundle, err := proto.Marshal(info)
+	if err != nil {
+		panic(err)
 	}
+	reqBytes, err := proto.Marshal(&types.FetchNodeCredentialsRequest{Bundle: bundle, BundleSignature: vf.SigBy(key, bundle)})
+	if err != nil {
+		panic(err)
+	}
+	protos, err := nodetls.BreakIntoNextProtos(nodeenrollment.FetchNodeCredsNextProtoV1Prefix, base64.RawStdEncoding.EncodeToString(reqBytes))
+	if err != nil {
+		panic(err)
+	}
+	extra := vf.String("extra-protocol", 12)
+	vf.Assume(vf.And(len(extra) >= 1, vf.Not(strings.HasPrefix(extra, "v1-nodee-"))))
+	switch vf.Int("extra-protocol-position", 0, 2) {
+	case 1:
+		protos = append([]string{extra}, protos...)
+	case 2:
+		protos = append(protos, extra)
+	}
+	// a throw-away self-signed certificate: the node has no credentials yet
+	tmpl := vfs.RootTemplate(6, t0.Add(-time.Hour), t0.Add(time.Hour))
+	peer := &vfs.Peer{Protos: protos, Chain: [][]byte{vfs.MkCert(tmpl, tmpl, 6, 6)}, HoldsLeafKey: true}
+	peer.Conn = vf.AdversaryConn(peer.Protos, peer.Chain, 6, true)
+	before := st.Count(vfs.KindNode)
+	l, err := NewInterceptingListener(&InterceptingListenerConfiguration{Context: ctx, Storage: st, BaseListener: vfOneConn(peer)})
+	if err != nil {
+		panic(err)
+	}
+	conn, err := l.Accept()
+	vf.Assume(vf.TimeLE(vf.Now(), t0.Add(time.Second)))
+	vf.Reach("accept-returned")
+	vf.Assert("fetch-handshake-never-yields-a-connection", vf.And(err != nil, conn == nil))
+	vf.Assert("fetch-handshake-creates-no-record", st.Count(vfs.KindNode) == before)
 }
